@@ -233,6 +233,9 @@ func init() {
 			runPureSet(c, r, qm, 5)
 			lf := runLISTFLOW(c, r, "LISTFLOW")
 			r.RequireMin("LISTFLOW obligations in evalPredicate", lf, 2)
+			// a numeric predicate is floored, not truncated
+			fi := runF2I(c, r, "F2I", fnsOf(qm))
+			r.RequireMin("F2I float-to-integer conversions in the predicate machinery", fi, 1)
 		},
 	})
 	register(&propDef{
@@ -266,6 +269,7 @@ func init() {
 			}
 			runMAPEQ(c, r, "MAPEQ", ef)
 			r.Count("MAPEQ functions scanned", len(ef))
+			runF2I(c, r, "F2I", c.fnsNamed(r, "jsonata.evalRange"))
 			r.Assume("numbers entering evaluation (decoded JSON, number literals) are finite; FIN shows finiteness is preserved")
 		},
 	})
@@ -828,6 +832,8 @@ func init() {
 			// every sub-picture is validated, whichever one renders the number
 			va := runVALIDALL(c, r, "VALIDALL")
 			r.RequireMin("VALIDALL success returns of the picture processor", va, 1)
+			fb := runF2I(c, r, "F2I", c.fnsNamed(r, "jlib.FormatBase"))
+			r.RequireMin("F2I float-to-integer conversions in $formatBase", fb, 2)
 			e := newFIN(c, c.G)
 			// the functions bound to the number built-ins, whatever they are called
 			only := map[string]bool{}
